@@ -63,13 +63,16 @@ structure EndSessionRequest where
 structure SessStore where
   clients : List OPClient := []
   termOK : String → String → Bool := fun _ _ => true
+  lookupOK : String → Bool := fun _ => true      -- does the storage answer the client lookup at all (false: a storage fault)
   is_CanTerminateSessionFromRequest : Bool := false
 
 namespace SessStore
 def GetClientByClientID (s : SessStore) (id : String) : Go.R OPClient :=
-  match s.clients.find? (·.id == id) with
-  | some c => .ok c
-  | none => .error "client not found"
+  if s.lookupOK id then
+    match s.clients.find? (·.id == id) with
+    | some c => .ok c
+    | none => .error "client not found"
+  else .error "storage: lookup failed"
 def TerminateSession (s : SessStore) (userID clientID : String) : Go.R Unit :=
   if s.termOK userID clientID then .ok () else .error "storage: terminate failed"
 /-- reference storage: terminates (UserID, ClientID) and sends the user where the framework proposed -/
